@@ -22,6 +22,8 @@ def variants():
         out.append((os.path.basename(d), os.path.join(d, "patch.diff"), "silent", []))
     for d in sorted(glob.glob(os.path.join(VERIF, "seeded", "C*"))):
         m = json.load(open(os.path.join(d, "meta.json")))
+        if m.get("open_miss"):
+            continue        # a confirmed change no check reports yet (recorded in DESIGN.md); not an expectation of the matrix
         out.append(("S" + os.path.basename(d), os.path.join(d, "patch.diff"), "fire-or-closed" if m.get("fails_closed") else "fire", [m["property"]]))
     for p in sorted(glob.glob(os.path.join(VERIF, "selftest", "C*", "*.patch"))):
         m = json.load(open(p[:-6] + ".json"))
